@@ -14,7 +14,11 @@ RULE = (
     "Oracle: per-cell row counts by a pure-Python group-by; missing iff zero; every block sums to N. "
     "Non-trivial = at least 2 dimensions and at least one dimension whose common category occurs in the data "
     "(so a cell is reconstructed by differencing); at least a quarter of the cubes have 4 dimensions. "
-    "Distinct by the full case content."
+    "Distinct by the full case content. histories: the C06 state machine in count-cube mode - after every step the count "
+    "cube of every live non-negative index (alone and crossed with another live index of the same length) is "
+    "compared with the table counted from the dense NumPy model, so indexes REACHED BY A HISTORY (append, update, "
+    "filter, set updates, re-indexing ...) and cubes computed repeatedly over the same index object are covered; "
+    "non-trivial = a history with a mutation in which a cube was computed over an operation's result."
 )
 ASSUMPTIONS = [
     "explicit cube shapes cover the data and the common value of each dimension",
@@ -76,6 +80,23 @@ def check(case, rec):
         rec.nontrivial()
 
 
+MEX = {"quick": 1600, "thorough": 60000}
+MSTEPS = {"quick": 20, "thorough": 30}
+
+
+def machine_runner(sub, tier, seed, shard, nshards, rec):
+    from .. import machine as M
+
+    M.run_machine(sub, tier, seed, shard, nshards, rec, "C02", MEX, MSTEPS)
+
+
+def machine_replay(case, rec):
+    from .. import machine as M
+
+    M.replay(case, rec)
+
+
 SUBS = [
+    Sub("histories", machine_replay, runner=machine_runner, examples=MEX, weight=4),
     Sub("count", check, strategy=cases, examples={"quick": 4000, "thorough": 200000}),
 ]
